@@ -120,6 +120,13 @@ def run_chunk(args):
     h, idx, dsmax, logmax, fmts, w = args
     env = envfor(dsmax)
     lines = ['sinks pipe', 'lean 1', 'errno -1'] + ['setenv %s %s' % (H.hx(k), H.hx(v)) for k, v in env.items()]
+    if idx < 0:
+        # compiled-in route: the format is the build's default message format (no configuration file in this build; limits are the defaults)
+        lines += ['defoutput ' + H.hx(b'file'), 'defoutarg ' + H.hx((w + '/log').encode())]
+        for f in fmts:
+            lines.append('defformat ' + H.hx(f))
+            lines.append('call execve %s %s [] -1 2' % (H.hx(PATH), H.vec([H.hx(a) for a in ARGV])))
+        return H.run_script(h, w, '\n'.join(lines), env_extra={'VERIF_HEXMAX': '40000'}, timeout=900)
     for f in fmts:
         cfg = b'[snoopy]\ndatasource_message_max_length = %d\nlog_message_max_length = %d\noutput = file:%s/log\nmessage_format = %s\n' % (dsmax, logmax, w.encode(), f)
         lines.append('cfg ' + H.hx(cfg))
@@ -390,6 +397,20 @@ def run(ck):
             for i in range(0, len(use), chunk):
                 jobs.append((v['h_exec'], idx, dsmax, logmax, use[i:i + chunk], os.path.join(ck.workdir, 'w%d' % idx)))
                 idx += 1
+    # the compiled-in route (./configure --disable-config-file --with-message-format=...): default limits, all <= 3-token formats (quick: the reduced set)
+    vci = H.build_exec_harness('c05ci-ts-asan', compiled_in=True)
+    toks = tokens(2047)
+    seen, fmci = set(), []
+    for n in (1, 2, 3):
+        for sq in itertools.product(toks, repeat=n):
+            f = b''.join(sq)
+            if f not in seen and len(f) <= 60000 and (full or (len(f) <= 640 and f.count(b'%{') <= 2 and f.count(b'L' * 300) <= 1)):
+                seen.add(f)
+                fmci.append(f)
+    per_limit[('compiled_in', 2047, 16383)] = len(fmci)
+    for i in range(0, len(fmci), chunk):
+        idx += 1
+        jobs.append((vci['h_exec'], -idx, 2047, 16383, fmci[i:i + chunk], os.path.join(ck.workdir, 'ci%d' % idx)))
     if full:
         # the upper end of the configurable range: both limits at 1048575, data-source outputs of limit-1 / limit / limit+1 bytes
         big = 1048575
@@ -451,5 +472,5 @@ def run(ck):
                        'after an unknown tag only the prefix up to the error text is compared']
     ck.coverage(states=len(outcomes), transitions=evals, traces_validated_against_impl=evals, evaluations=evals, distinct_nontrivial=len(outcomes),
                 rule='every token sequence up to the bound x limit pair; distinct = distinct (status, fits, message) observations',
-                formats_per_limit_pair={'%d/%d' % k: n for k, n in per_limit.items()}, cases_where_expansion_fits=n_fits, cases_over_a_limit=n_over,
+                formats_per_limit_pair={'/'.join(map(str, k)): n for k, n in per_limit.items()}, cases_where_expansion_fits=n_fits, cases_over_a_limit=n_over,
                 skipped_too_long=skipped, samples=samples or [{'note': 'none'}])
